@@ -62,43 +62,170 @@ fn show_tag_arr<T: Tag>(a: &Array<T>) -> String {
     format!("{}:{}", show_list(&a.get_shape().unwrap()), show_list(&a.get_elements().unwrap().iter().map(Tag::back).collect::<Vec<_>>()))
 }
 
+/// a RE-ENTRANT closure: while the outer operation runs, its closure itself runs the closure operation `inner` on another array
+/// (`on_self`: on the outer receiver itself) and compares that inner answer with plain Vec arithmetic.  The outer transcript must
+/// be the one of the same closure without the inner call (the model's answer for the plain op).
+#[derive(Clone, Copy)]
+struct Reent { inner: usize, on_self: bool }
+const CL_OPS: [&str; 9] = ["map", "map_e", "filter", "filter_e", "filter_map", "filter_map_e", "fold", "for_each", "for_each_e"];
+/// the other array of a re-entrant closure (shape [2,4])
+const INNER_TAGS: [i64; 8] = [4, 8, 1, 6, 2, 9, 3, 7];
+
+/// run closure op number `inner` on `x` (tags `xs`) with a closure that depends on the outer call `(k, v)`; `Some(text)` = the inner
+/// answer (result, shape, or the order of the inner calls) is not what plain Vec arithmetic on `xs` gives
+fn reenter<T: Tag>(x: &Array<T>, xs: &[i64], xshape: &[usize], inner: usize, k: i64, v: i64) -> Option<String> {
+    let m = 2 + (k + v).rem_euclid(3);
+    let name = CL_OPS[inner];
+    let en = name.ends_with("_e");
+    let val = |i: usize, y: i64| 3 * y + k + if en { 1000 * i as i64 } else { 0 };
+    let acc = |i: usize, y: i64| (y + k + if en { i as i64 } else { 0 }).rem_euclid(m) != 0;
+    let step = |a: i64, y: i64| (a * 31 + y).rem_euclid(1_000_003);
+    let mut seen: Vec<(usize, i64)> = vec![];
+    let mut cnt = 0usize;
+    let as_i64 = |r: Result<Array<i64>, ArrayError>| r.map(|r| (r.get_shape().unwrap(), r.get_elements().unwrap())).map_err(|e| err_name(&e).to_string());
+    let as_tag = |r: Result<Array<T>, ArrayError>| r.map(|r| (r.get_shape().unwrap(), r.get_elements().unwrap().iter().map(Tag::num).collect::<Vec<i64>>())).map_err(|e| err_name(&e).to_string());
+    let got: Result<(Vec<usize>, Vec<i64>), String> = match name {
+        "map" => as_i64(x.map(|y| { let y = y.num(); seen.push((cnt, y)); cnt += 1; val(0, y) })),
+        "map_e" => as_i64(x.map_e(|i, y| { let y = y.num(); seen.push((i, y)); val(i, y) })),
+        "filter" => as_tag(x.filter(|y| { let y = y.num(); seen.push((cnt, y)); cnt += 1; acc(0, y) })),
+        "filter_e" => as_tag(x.filter_e(|i, y| { let y = y.num(); seen.push((i, y)); acc(i, y) })),
+        "filter_map" => as_i64(x.filter_map(|y| { let y = y.num(); seen.push((cnt, y)); cnt += 1; if acc(0, y) { Some(val(0, y)) } else { None } })),
+        "filter_map_e" => as_i64(x.filter_map_e(|i, y| { let y = y.num(); seen.push((i, y)); if acc(i, y) { Some(val(i, y)) } else { None } })),
+        "fold" => x.fold(k, |&a, y| { let y = y.num(); seen.push((cnt, y)); cnt += 1; step(a, y) }).map(|r| (vec![], vec![r])).map_err(|e| err_name(&e).to_string()),
+        "for_each" => x.for_each(|y| { seen.push((cnt, y.num())); cnt += 1; }).map(|_| (vec![], vec![])).map_err(|e| err_name(&e).to_string()),
+        _ => x.for_each_e(|i, y| { seen.push((i, y.num())); }).map(|_| (vec![], vec![])).map_err(|e| err_name(&e).to_string()),
+    };
+    let pairs: Vec<(usize, i64)> = xs.iter().copied().enumerate().collect();
+    let want: (Vec<usize>, Vec<i64>) = match name {
+        "map" | "map_e" => (xshape.to_vec(), pairs.iter().map(|&(i, y)| val(i, y)).collect()),
+        "filter" | "filter_e" => { let e: Vec<i64> = pairs.iter().filter(|&&(i, y)| acc(i, y)).map(|&(_, y)| y).collect(); (vec![e.len()], e) }
+        "filter_map" | "filter_map_e" => { let e: Vec<i64> = pairs.iter().filter(|&&(i, y)| acc(i, y)).map(|&(i, y)| val(i, y)).collect(); (vec![e.len()], e) }
+        "fold" => (vec![], vec![xs.iter().fold(k, |a, &y| step(a, y))]),
+        _ => (vec![], vec![]),
+    };
+    if seen != pairs { return Some(format!("inner {name} (outer call {k}) visited {:?}, not every element once in flat order", truncate(&format!("{seen:?}"), 200))); }
+    match got {
+        Ok(g) if g == want => None,
+        Ok(g) => Some(format!("inner {name} (outer call {k}, element {v}) answered {}:{} instead of {}:{}", show_list(&g.0), truncate(&show_list(&g.1), 200), show_list(&want.0), truncate(&show_list(&want.1), 200))),
+        Err(e) => Some(format!("inner {name} (outer call {k}) answered err {e}")),
+    }
+}
+
 /// transcript (result + call log) of one closure operation on the `T` image of the tag array; `None` = a tag has no `T` image
-fn closure_on<T: Tag>(op: &str, raw: &(Vec<usize>, Vec<i64>), p: Clo, init: i64) -> Option<String> {
+fn closure_on<T: Tag>(op: &str, raw: &(Vec<usize>, Vec<i64>), p: Clo, init: i64, re: Option<Reent>) -> Option<String> {
     let elems: Vec<T> = raw.1.iter().map(|&t| T::of(t)).collect::<Option<Vec<T>>>()?;
     let a: Array<T> = Array::new(elems, raw.0.clone()).expect("harness: malformed array literal in case line");
+    let other: Array<T> = Array::new(INNER_TAGS.iter().map(|&t| T::of(t)).collect::<Option<Vec<T>>>()?, vec![2, 4]).expect("harness: inner array");
     let mut k: i64 = 0;
     let mut log: Log = vec![];
     let op = op.to_string();
+    let raw = raw.clone();
     Some(guarded(move || {
+        if op == "into_iter" { let v: Vec<String> = a.into_iter().map(|x| x.back()).collect(); return format!("ok {}", show_list(&v)); }
+        if op == "into_iter_ref" { let mut v: Vec<String> = vec![]; for x in &a { v.push(x.back()); } return format!("ok {}", show_list(&v)); }
+        let inner_bad: std::cell::RefCell<Option<String>> = std::cell::RefCell::new(None);
+        // the re-entrant part of the closure (nothing for an ordinary case)
+        let hook = |k: i64, v: i64| {
+            if let Some(r) = re {
+                let d = if r.on_self { reenter(&a, &raw.1, &raw.0, r.inner, k, v) } else { reenter(&other, &INNER_TAGS, &[2, 4], r.inner, k, v) };
+                if let Some(d) = d { inner_bad.borrow_mut().get_or_insert(d); }
+            }
+        };
         let head = match op.as_str() {
-            "map" => res_arr(&a.map(|v| { let v = v.num(); let r = p.val(k, None, v); log.push((k, None, v)); k += 1; r })),
-            "map_e" => res_arr(&a.map_e(|i, v| { let v = v.num(); let r = p.val(k, Some(i), v); log.push((k, Some(i), v)); k += 1; r })),
-            "filter" => show_res(&a.filter(|v| { let v = v.num(); let r = p.acc(k, None, v); log.push((k, None, v)); k += 1; r }), show_tag_arr),
-            "filter_e" => show_res(&a.filter_e(|i, v| { let v = v.num(); let r = p.acc(k, Some(i), v); log.push((k, Some(i), v)); k += 1; r }), show_tag_arr),
-            "filter_map" => res_arr(&a.filter_map(|v| { let v = v.num(); let r = p.opt(k, None, v); log.push((k, None, v)); k += 1; r })),
-            "filter_map_e" => res_arr(&a.filter_map_e(|i, v| { let v = v.num(); let r = p.opt(k, Some(i), v); log.push((k, Some(i), v)); k += 1; r })),
-            "fold" => show_res(&a.fold(init, |&acc, v| { let v = v.num(); let r = p.step(k, acc, v); log.push((k, None, v)); k += 1; r }), |v| v.to_string()),
-            "for_each" => show_res(&a.for_each(|v| { log.push((k, None, v.num())); k += 1; }), |_| "unit".to_string()),
-            "for_each_e" => show_res(&a.for_each_e(|i, v| { log.push((k, Some(i), v.num())); k += 1; }), |_| "unit".to_string()),
-            "into_iter" => { let v: Vec<String> = a.into_iter().map(|x| x.back()).collect(); format!("ok {}", show_list(&v)) }
-            "into_iter_ref" => { let mut v: Vec<String> = vec![]; for x in &a { v.push(x.back()); } format!("ok {}", show_list(&v)) }
+            "map" => res_arr(&a.map(|v| { let v = v.num(); hook(k, v); let r = p.val(k, None, v); log.push((k, None, v)); k += 1; r })),
+            "map_e" => res_arr(&a.map_e(|i, v| { let v = v.num(); hook(k, v); let r = p.val(k, Some(i), v); log.push((k, Some(i), v)); k += 1; r })),
+            "filter" => show_res(&a.filter(|v| { let v = v.num(); hook(k, v); let r = p.acc(k, None, v); log.push((k, None, v)); k += 1; r }), show_tag_arr),
+            "filter_e" => show_res(&a.filter_e(|i, v| { let v = v.num(); hook(k, v); let r = p.acc(k, Some(i), v); log.push((k, Some(i), v)); k += 1; r }), show_tag_arr),
+            "filter_map" => res_arr(&a.filter_map(|v| { let v = v.num(); hook(k, v); let r = p.opt(k, None, v); log.push((k, None, v)); k += 1; r })),
+            "filter_map_e" => res_arr(&a.filter_map_e(|i, v| { let v = v.num(); hook(k, v); let r = p.opt(k, Some(i), v); log.push((k, Some(i), v)); k += 1; r })),
+            "fold" => show_res(&a.fold(init, |&acc, v| { let v = v.num(); hook(k, v); let r = p.step(k, acc, v); log.push((k, None, v)); k += 1; r }), |v| v.to_string()),
+            "for_each" => show_res(&a.for_each(|v| { let v = v.num(); hook(k, v); log.push((k, None, v)); k += 1; }), |_| "unit".to_string()),
+            "for_each_e" => show_res(&a.for_each_e(|i, v| { let v = v.num(); hook(k, v); log.push((k, Some(i), v)); k += 1; }), |_| "unit".to_string()),
             _ => unreachable!(),
         };
-        if op.starts_with("into_iter") { head } else { format!("{}|{}", head, show_log(&log)) }
+        let bad = inner_bad.borrow().clone();
+        match bad { Some(d) => format!("{}|{}|INNER-DIVERGENCE {d}", head, show_log(&log)), None => format!("{}|{}", head, show_log(&log)) }
     }))
 }
 
-/// the i64 transcript; the same call on the other element types must give the same transcript
-fn exec_closure(op: &str, args: &[&str]) -> Option<String> {
+/// the transcript by plain Vec arithmetic (harness-native reference): every element once, in flat order, call numbers 0..n-1,
+/// flat positions for the enumerating variants; filter results are flat.  VALIDATED against the model's answer on every closure
+/// case the model answers (see `exec`), used alone on the huge shapes where the list-backed model driver is too slow.
+fn native_transcript(op: &str, raw: &(Vec<usize>, Vec<i64>), p: Clo, init: i64) -> String {
+    let en = op.ends_with("_e");
+    let calls: Vec<(i64, Option<usize>, i64)> = raw.1.iter().enumerate().map(|(i, &v)| (i as i64, if en { Some(i) } else { None }, v)).collect();
+    let arr = |shape: &[usize], e: Vec<i64>| format!("ok {}:{}", show_list(shape), show_list(&e));
+    if op.starts_with("into_iter") { return format!("ok {}", show_list(&raw.1)); }
+    let head = match op {
+        "map" | "map_e" => arr(&raw.0, calls.iter().map(|&(k, i, v)| p.val(k, i, v)).collect()),
+        "filter" | "filter_e" => { let e: Vec<i64> = calls.iter().filter(|&&(k, i, v)| p.acc(k, i, v)).map(|c| c.2).collect(); arr(&[e.len()], e) }
+        "filter_map" | "filter_map_e" => { let e: Vec<i64> = calls.iter().filter_map(|&(k, i, v)| p.opt(k, i, v)).collect(); arr(&[e.len()], e) }
+        "fold" => format!("ok {}", calls.iter().fold(init, |a, &(k, _, v)| p.step(k, a, v))),
+        _ => "ok unit".to_string(),
+    };
+    format!("{}|{}", head, show_log(&calls))
+}
+static ORACLE_VALIDATIONS: std::sync::atomic::AtomicUsize = std::sync::atomic::AtomicUsize::new(0);
+static NATIVE_ONLY: std::sync::atomic::AtomicUsize = std::sync::atomic::AtomicUsize::new(0);
+
+fn closure_params(op: &str, args: &[&str]) -> Option<(Clo, i64)> {
+    if op.starts_with("into_iter") { Some((Clo { a: 0, b: 0, c: 0, m: 1, t: 0 }, 0)) } else {
+        Some((Clo::parse(args.get(1)?)?, if op == "fold" { args.get(2)?.parse().ok()? } else { 0 })) }
+}
+
+/// the i64 transcript; the same call on the other element types must give the same transcript (value-type-generic state: the same
+/// arguments through four element types back to back), and the i64 call AGAIN afterwards must repeat its first answer (A-B-A)
+fn exec_closure(op: &str, args: &[&str], re: Option<Reent>) -> Option<String> {
     let raw = parse_arr_raw(args[0]);
     if raw.0.iter().product::<usize>() != raw.1.len() { return None; }
-    let (p, init) = if op.starts_with("into_iter") { (Clo { a: 0, b: 0, c: 0, m: 1, t: 0 }, 0) } else {
-        (Clo::parse(args.get(1)?)?, if op == "fold" { args.get(2)?.parse().ok()? } else { 0 }) };
-    let base = closure_on::<i64>(op, &raw, p, init)?;
-    for (name, other) in [(<f64 as Tag>::NAME, closure_on::<f64>(op, &raw, p, init)), (<u8 as Tag>::NAME, closure_on::<u8>(op, &raw, p, init)), (<String as Tag>::NAME, closure_on::<String>(op, &raw, p, init))] {
+    let (p, init) = closure_params(op, args)?;
+    let base = closure_on::<i64>(op, &raw, p, init, re)?;
+    for (name, other) in [(<f64 as Tag>::NAME, closure_on::<f64>(op, &raw, p, init, re)), (<u8 as Tag>::NAME, closure_on::<u8>(op, &raw, p, init, re)), (<String as Tag>::NAME, closure_on::<String>(op, &raw, p, init, re))] {
         if let Some(t) = other { if t != base { return Some(format!("TYPE-DIVERGENCE on Array<{name}>: {}; on Array<i64>: {}", truncate(&t, 400), truncate(&base, 400))); } }
     }
+    let again = closure_on::<i64>(op, &raw, p, init, re)?;
+    if again != base { return Some(format!("STATE-DIVERGENCE the same call on Array<i64> again, after the runs on the other element types: {}; first: {}", truncate(&again, 400), truncate(&base, 400))); }
     Some(base)
+}
+
+/// a closure case: the real transcript against the model's; on the way the native reference transcript is validated against the model
+fn judge_closure(op: &str, args: &[&str], re: Option<Reent>, expected: &str) -> Option<Verdict> {
+    let observed = exec_closure(op, args, re)?;
+    if class_of(expected) == "ok" {
+        let (p, init) = closure_params(op, args)?;
+        let native = native_transcript(op, &parse_arr_raw(args[0]), p, init);
+        if native != expected { return Some(Verdict::Mismatch { observed: format!("ORACLE-DIVERGENCE native reference transcript `{}`", truncate(&native, 400)), detail: format!("the harness-native reference disagrees with the model, which says `{}`", truncate(expected, 400)) }); }
+        ORACLE_VALIDATIONS.fetch_add(1, std::sync::atomic::Ordering::Relaxed);
+        // A-B-A with a value permutation: the same call on the array with its values REVERSED (same shape, multiset, checksum),
+        // judged by the native transcript just validated; then this case again
+        let raw = parse_arr_raw(args[0]);
+        if observed == expected && raw.1.len() >= 2 && raw.1.len() <= 2000 {
+            let rev = (raw.0.clone(), raw.1.iter().rev().copied().collect::<Vec<i64>>());
+            let got = closure_on::<i64>(op, &rev, p, init, re)?;
+            let want = native_transcript(op, &rev, p, init);
+            if got != want { return Some(Verdict::Mismatch { observed: format!("A-B-A, the same call on the array with its values reversed: {}", truncate(&got, 400)), detail: format!("native reference transcript (validated against the model on this very case): `{}`", truncate(&want, 400)) }); }
+            let again = closure_on::<i64>(op, &raw, p, init, re)?;
+            if again != observed { return Some(Verdict::Mismatch { observed: format!("STATE-DIVERGENCE this case again after the run on the reversed values: {}", truncate(&again, 400)), detail: format!("first answer `{}`", truncate(&observed, 400)) }); }
+        }
+    }
+    Some(compare_default(observed, expected))
+}
+
+/// a closure case on a huge shape: the list-backed model driver answers `native` (it would take minutes); judged by the native
+/// reference transcript alone
+fn judge_closure_native(op: &str, args: &[&str], expected: &str) -> Option<Verdict> {
+    if expected != "ok native" { return Some(compare_default("harness: hclo expects the driver to answer `ok native`".into(), expected)); }
+    let (p, init) = closure_params(op, args)?;
+    let native = native_transcript(op, &parse_arr_raw(args[0]), p, init);
+    let observed = exec_closure(op, args, None)?;
+    NATIVE_ONLY.fetch_add(1, std::sync::atomic::Ordering::Relaxed);
+    if observed == native { Some(Verdict::Match(format!("ok native-reference transcript of {} bytes reproduced", native.len()))) }
+    else {
+        let at = observed.bytes().zip(native.bytes()).position(|(x, y)| x != y).unwrap_or(observed.len().min(native.len()));
+        let lo = at.saturating_sub(60);
+        Some(Verdict::Mismatch { observed: truncate(&observed, 600), detail: format!("differs from the native reference transcript at byte {at}: real `…{}`, reference `…{}`",
+            truncate(observed.get(lo..).unwrap_or(""), 160), truncate(native.get(lo..).unwrap_or(""), 160)) })
+    }
 }
 
 // ------------------------------------------------------------------ unary math ops
@@ -133,8 +260,30 @@ fn int_lim(min: i128, max: i128) -> Vec<i128> {
     v
 }
 
+/// robustness class `near`: flat-ADJACENT values that differ by one ulp, by 1e-13 / 1e-15 relative or by 1e-13 absolute, each
+/// followed by the base value again (a memoised "last argument" compared with a tolerance, or a cache keyed by a rounded value,
+/// answers the neighbour's result)
+const NEAR_BASE: &[f64] = &[2.5, -2.5, 0.5, 1.0, 10.0, 100.7, 0.1, 7.3, 1e-5, 3.0, 0.999, 42.0, 6.283185307179586, -0.75, 700.0, 1e10, 0.3, 20.5, -7.3, 0.25];
+fn ulp_step(x: f64, up: bool) -> f64 { let b = x.to_bits(); f64::from_bits(if (x > 0.0) == up { b + 1 } else { b - 1 }) }
+fn near_f64(j: usize) -> f64 {
+    let b = NEAR_BASE[(j / 8) % NEAR_BASE.len()];
+    match j % 8 { 0 | 3 => b, 1 => ulp_step(b, true), 2 => b * (1.0 + 1e-13), 4 => b * (1.0 + 1e-15), 5 => b * (1.0 - 1e-13), 6 => ulp_step(b, false), _ => b + 1e-13 }
+}
+fn near_f32(j: usize) -> f32 {
+    let b = NEAR_BASE[(j / 8) % NEAR_BASE.len()] as f32;
+    let st = |x: f32, up: bool| { let t = x.to_bits(); f32::from_bits(if (x > 0.0) == up { t + 1 } else { t - 1 }) };
+    match j % 8 { 0 | 3 => b, 1 => st(b, true), 2 => st(st(b, true), true), 4 => b * (1.0 + 1e-6), 5 => st(b, false), 6 => b * (1.0 - 3e-7), _ => b + 1e-6 }
+}
+/// integers: a value, its successor, the value again, its predecessor
+fn near_int(j: usize, min: i128, max: i128) -> i128 {
+    let base: Vec<i128> = INT_DOM.iter().copied().filter(|x| *x >= min && *x <= max).collect();
+    let b = base[(j / 4) % base.len()];
+    (b + [0, 1, 0, -1][j % 4]).clamp(min, max)
+}
+
 fn f64_value(cls: &str, j: usize) -> f64 {
     match cls {
+        "near" => near_f64(j),
         "dom" => F64_DOM[j % F64_DOM.len()],
         "edge" => F64_EDGE[j % F64_EDGE.len()],
         "spec" => F64_SPEC[j % F64_SPEC.len()],
@@ -202,6 +351,7 @@ macro_rules! elem_int {
         impl Elem for $t {
             fn value(cls: &str, j: usize) -> Self {
                 let pick = |l: &[i128]| -> Self { let v: Vec<$t> = l.iter().filter_map(|x| <$t>::try_from(*x).ok()).collect(); v[j % v.len()] };
+                if cls == "near" { return near_int(j, <$t>::MIN as i128, <$t>::MAX as i128) as $t; }
                 if cls == "lim" { pick(&int_lim(<$t>::MIN as i128, <$t>::MAX as i128)) } else { pick(INT_DOM) }
             }
             fn f(self) -> f64 { self as f64 }
@@ -216,7 +366,7 @@ elem_int!(i8, numops); elem_int!(i16, numops); elem_int!(i64, numops);
 elem_int!(u8, plain); elem_int!(u16, plain); elem_int!(u32, plain); elem_int!(u64, plain);
 impl Elem for i32 {
     // (the original stream ignores the class for i32)
-    fn value(cls: &str, j: usize) -> i32 { if cls == "lim" { let v = int_lim(i32::MIN as i128, i32::MAX as i128); v[j % v.len()] as i32 } else { I32_VALS[j % I32_VALS.len()] } }
+    fn value(cls: &str, j: usize) -> i32 { if cls == "near" { return near_int(j, i32::MIN as i128, i32::MAX as i128) as i32; } if cls == "lim" { let v = int_lim(i32::MIN as i128, i32::MAX as i128); v[j % v.len()] as i32 } else { I32_VALS[j % I32_VALS.len()] } }
     fn f(self) -> f64 { self as f64 }
     fn t(v: f64) -> Self { v as i32 }
     fn maxv() -> Self { i32::MAX }
@@ -224,9 +374,9 @@ impl Elem for i32 {
     fn call_extra(op: &str, a: &Array<Self>, recv: Recv) -> Option<Keys> { on_recv!(recv, a, |r| numops_on(r, op)) }
 }
 macro_rules! elem_float {
-    ($t:ty, $ti:ty) => {
+    ($t:ty, $ti:ty, $near:expr) => {
         impl Elem for $t {
-            fn value(cls: &str, j: usize) -> Self { f64_value(cls, j) as $t }
+            fn value(cls: &str, j: usize) -> Self { if cls == "near" { return $near(j); } f64_value(cls, j) as $t }
             fn f(self) -> f64 { self as f64 }
             fn t(v: f64) -> Self { v as $t }
             fn nan(self) -> bool { self != self }
@@ -239,8 +389,8 @@ macro_rules! elem_float {
         }
     };
 }
-elem_float!(f64, i128);
-elem_float!(f32, i64);
+elem_float!(f64, i128, near_f64);
+elem_float!(f32, i64, near_f32);
 
 const OPS_ALL: &[&str] = &["fix", "trunc", "floor", "ceil", "rint", "round0", "round2", "around1",
     "exp", "exp2", "exp_m1", "log", "log2", "log10", "log_1p",
@@ -288,8 +438,9 @@ fn native<N: Elem>(op: &str, x: N) -> u64 {
         "absolute" | "abs" | "fabs" => n(f.abs()),
         "sign" => (if x < zero { -1isize } else { 1isize }).key(),
         "nan_to_num" => (if x.nan() { zero } else if x.inf() { N::maxv() } else { x }).key(),
-        // i0 is a 60-coefficient Chebyshev kernel private to the crate: the oracle applies the same op to the one-element array
-        "i0" => match N::call_extra("i0", &Array::single(x).unwrap(), Recv::Plain) { Some(Ok((_, k))) if k.len() == 1 => k[0], _ => panic!("native: i0 on a one-element array") },
+        // i0: the Cephes Chebyshev kernel named in the op's body, evaluated here (harness-native: no call into the crate, so no state
+        // the crate may keep between two evaluations can reach the oracle)
+        "i0" => n(i0_native(f)),
         "sinc" => { let y = std::f64::consts::PI * if x == zero { 1.0e-20 } else { f }; n(y.sin() / y) }
         "signbit" => f.is_sign_negative().key(),
         "spacing" => { let bits = f.to_bits(); let next = if f.is_sign_negative() { bits - 1 } else { bits + 1 }; n(f64::from_bits(next) - f) }
@@ -297,6 +448,26 @@ fn native<N: Elem>(op: &str, x: N) -> u64 {
         "bitwise_not" | "invert" => x.bnot().key(),
         _ => panic!("native: unknown op {op}"),
     }
+}
+
+/// Cephes i0 (Chebyshev coefficients of exp(-x) I0(x) on [0,8] and of exp(-x) sqrt(x) I0(x) on (8,inf)), the formula of special.rs
+const I0_A: [f64; 30] = [-4.415_341_646_479_339E-18, 3.330_794_518_822_238E-17, -2.431_279_846_547_954E-16, 1.715_391_285_555_133E-15, -1.168_533_287_799_345E-14,
+    7.676_185_498_604_935E-14, -4.856_446_783_111_929E-13, 2.955_052_663_129_639E-12, -1.726_826_291_441_555E-11, 9.675_809_035_373_236E-11, -5.189_795_601_635_262E-10,
+    2.659_823_724_682_386E-9, -1.300_025_009_986_248E-8, 6.046_995_022_541_918E-8, -2.670_793_853_940_611E-7, 1.117_387_539_120_103E-6, -4.416_738_358_458_75E-6,
+    1.644_844_807_072_889E-5, -5.754_195_010_082_103E-5, 1.885_028_850_958_416E-4, -5.763_755_745_385_823E-4, 1.639_475_616_941_335E-3, -4.324_309_995_050_575E-3,
+    1.054_646_039_459_499E-2, -2.373_741_480_589_946E-2, 4.930_528_423_967_07E-2, -9.490_109_704_804_764E-2, 1.716_209_015_222_087E-1, -3.046_826_723_431_983E-1, 6.767_952_744_094_76E-1];
+const I0_B: [f64; 25] = [-7.233_180_487_874_753E-18, -4.830_504_485_944_182E-18, 4.465_621_420_296_759E-17, 3.461_222_867_697_461E-17, -2.827_623_980_516_583E-16,
+    -3.425_485_619_677_219E-16, 1.772_560_133_056_526E-15, 3.811_680_669_352_622E-15, -9.554_846_698_828_307E-15, -4.150_569_347_287_222E-14, 1.540_086_217_521_409E-14,
+    3.852_778_382_742_142E-13, 7.180_124_451_383_666E-13, -1.794_178_531_506_806E-12, -1.321_581_184_044_771E-11, -3.149_916_527_963_241E-11, 1.188_914_710_784_643E-11,
+    4.940_602_388_224_969E-10, 3.396_232_025_708_386E-9, 2.266_668_990_498_178E-8, 2.048_918_589_469_063E-7, 2.891_370_520_834_756E-6, 6.889_758_346_916_823E-5,
+    3.369_116_478_255_694E-3, 8.044_904_110_141_088E-1];
+fn chbevl_native(x: f64, vals: &[f64]) -> f64 {
+    let (mut b0, mut b1, mut b2) = (vals[0], 0.0f64, 0.0f64);
+    for val in &vals[1..] { b2 = b1; b1 = b0; b0 = x.mul_add(b1, -b2) + val; }
+    0.5 * (b0 - b2)
+}
+fn i0_native(x: f64) -> f64 {
+    if x <= 8.0 { x.exp() * chbevl_native(x / 2. - 2., &I0_A) } else { x.exp() * chbevl_native(32. / x - 2., &I0_B) / x.sqrt() }
 }
 
 /// the ops of the traits bounded by `Numeric` only, on either receiver
@@ -390,6 +561,25 @@ fn run_unary<N: Elem>(op: &str, shape: &[usize], cls: &str, off: usize, expected
     let plain = real_unary(op, &a, Recv::Plain);
     let v = judge(op, &a, plain.clone(), expected)?;
     if let Verdict::Mismatch { .. } = v { return Some(v); }
+    // A-B-A (hidden state): a DIFFERENT array of the same shape (the values moved by one position, floats: the `near` neighbours of
+    // other values) goes through the same op and is judged like A; then A again must repeat its first answer bit for bit
+    let n_el = a.len().unwrap_or(0);
+    if n_el > 0 && n_el <= 600 {
+        let b = build::<N>(shape, if cls == "near" { "dom" } else { "near" }, off + 1);
+        let vb = judge(op, &b, real_unary(op, &b, Recv::Plain), expected)?;
+        if let Verdict::Mismatch { observed, detail } = vb {
+            return Some(Verdict::Mismatch { observed: format!("A-B-A, second array (class {}, offset {}): {observed}", if cls == "near" { "dom" } else { "near" }, off + 1), detail });
+        }
+        // ... and the array with the same values in reversed order (same multiset, sum, xor: a cache keyed by a fingerprint of the values)
+        let mut rev = a.get_elements().unwrap(); rev.reverse();
+        let c: Array<N> = Array::new(rev, shape.to_vec()).expect("harness: build");
+        if let Verdict::Mismatch { observed, detail } = judge(op, &c, real_unary(op, &c, Recv::Plain), expected)? {
+            return Some(Verdict::Mismatch { observed: format!("A-B-A, the array with its values reversed: {observed}"), detail });
+        }
+        let again = real_unary(op, &a, Recv::Plain);
+        let same = match (&plain, &again) { (Ok(x), Ok(y)) => x == y, (Err(x), Err(y)) => class_of(x) == class_of(y), _ => false };
+        if !same { return Some(Verdict::Mismatch { observed: format!("STATE-DIVERGENCE second run: {}", show_keys(&again)), detail: format!("the same call again, after a call on another array, differs from its first answer `{}`", show_keys(&plain)) }); }
+    }
     let chained = real_unary(op, &a, Recv::Chained);
     let same = match (&plain, &chained) { (Ok(x), Ok(y)) => x == y, (Err(x), Err(y)) => class_of(x) == class_of(y), _ => false };
     if !same {
@@ -457,6 +647,9 @@ fn exec_float(op: &str, args: &[&str], expected: &str) -> Option<Verdict> {
         if chained != plain { return format!("RECEIVER-DIVERGENCE the call on `Ok(array)` gives `{}`, the plain call `{}`", truncate(&chained, 400), truncate(&plain, 400)); }
         let on_err = guarded(|| float_on(&err_of(&a), op, &exps));
         if class_of(&on_err) != "err" { return format!("RECEIVER-DIVERGENCE the call on an `Err(_)` receiver gives `{}`", truncate(&on_err, 300)); }
+        // A-B-A: the plain call again, after the calls on the other receivers
+        let again = float_on(&a, op, &exps);
+        if again != plain { return format!("STATE-DIVERGENCE the plain call again gives `{}`, first `{}`", truncate(&again, 400), truncate(&plain, 400)); }
         plain
     }
     let exps = if op == "ldexp" {
@@ -484,12 +677,62 @@ fn exec_float(op: &str, args: &[&str], expected: &str) -> Option<Verdict> {
 
 // ------------------------------------------------------------------ exec
 
-fn exec(op: &str, args: &[&str], expected: &str) -> Option<Verdict> {
+/// an iterator whose size hint is legal but not exact: lower bound `lo`, upper bound `hi`
+struct Hinted<I> { inner: I, lo: usize, hi: Option<usize> }
+impl<I: Iterator> Iterator for Hinted<I> {
+    type Item = I::Item;
+    fn next(&mut self) -> Option<I::Item> { self.inner.next() }
+    fn size_hint(&self) -> (usize, Option<usize>) { (self.lo, self.hi) }
+}
+
+fn exec_inner(op: &str, args: &[&str], expected: &str) -> Option<Verdict> {
     match op {
-        "map" | "map_e" | "filter" | "filter_e" | "filter_map" | "filter_map_e" | "fold" | "for_each" | "for_each_e" =>
-            Some(compare_default(exec_closure(op, args)?, expected)),
-        "into_iter" | "into_iter_ref" => Some(compare_default(exec_closure(op, args)?, expected)),
+        "map" | "map_e" | "filter" | "filter_e" | "filter_map" | "filter_map_e" | "fold" | "for_each" | "for_each_e" => judge_closure(op, args, None, expected),
+        "into_iter" | "into_iter_ref" => judge_closure(op, args, None, expected),
+        // re <inner op> <self|other> <op> ARR CLO [INIT]: the closure of <op> itself runs <inner op> on the receiver / on another array
+        "re" => {
+            let iname = *args.first()?;
+            let inner = CL_OPS.iter().position(|o| *o == iname)?;
+            let on_self = match *args.get(1)? { "self" => true, "other" => false, _ => return None };
+            let op2 = *args.get(2)?;
+            if !CL_OPS.contains(&op2) { return None; }
+            judge_closure(op2, &args[3..], Some(Reent { inner, on_self }), expected)
+        }
+        // hclo <op> ARR CLO [INIT]: huge shapes, native reference transcript
+        "hclo" => { let op2 = *args.first()?; if !CL_OPS.contains(&op2) && !op2.starts_with("into_iter") { return None; } judge_closure_native(op2, &args[1..], expected) }
         "collect" => { let l = parse_i64_list(args[0]); Some(compare_default(guarded(|| { let a: Array<i64> = l.into_iter().collect(); format!("ok {}", show_arr(&a)) }), expected)) }
+        // collect_h LIST MODE: FromIterator from iterators whose size hint is NOT exact
+        "collect_h" => {
+            let l = parse_i64_list(args[0]); let mode: usize = args.get(1)?.parse().ok()?; let n = l.len();
+            const SENT: i64 = i64::MIN;
+            Some(compare_default(guarded(move || {
+                let a: Array<i64> = match mode {
+                    0 => l.iter().flat_map(|&x| [SENT, x]).filter(|&x| x != SENT).collect(),           // (0, Some(2n))
+                    1 => Hinted { inner: l.into_iter(), lo: 0, hi: None }.collect(),                     // (0, None)
+                    2 => Hinted { inner: l.into_iter(), lo: n / 2, hi: Some(2 * n + 3) }.collect(),      // loose on both sides
+                    3 => l.into_iter().take_while(|_| true).collect(),                                    // (0, Some(n))
+                    4 => { let src: Array<i64> = Array::flat(l).unwrap(); (&src).into_iter().copied().skip_while(|_| false).collect() }   // by-reference iteration of an Array
+                    5 => { let src: Array<i64> = Array::flat(l).unwrap(); src.into_iter().rev().collect::<Vec<_>>().into_iter().rev().chain(std::iter::empty()).collect() } // by-value iteration
+                    _ => return "bad-op".to_string(),
+                };
+                if !consistent(&a) { return "ok INCONSISTENT".to_string(); }
+                format!("ok {}", show_arr(&a))
+            }), expected))
+        }
+        // clone_from A B: `b.clone_from(&a)` must make `b` the array `a` (shape and elements), whatever `b` held before
+        "clone_from" => {
+            let (a, mut b) = (parse_arr_i64(args[0]), parse_arr_i64(args[1]));
+            let (af, mut bf) = (parse_arr_f64z(args[0]), parse_arr_f64z(args[1]));
+            Some(compare_default(guarded(move || {
+                b.clone_from(&a); bf.clone_from(&af);
+                if !consistent(&b) || !consistent(&bf) { return "ok INCONSISTENT".to_string(); }
+                let same_f = bf.get_shape().unwrap() == af.get_shape().unwrap() && bf.get_elements().unwrap().iter().zip(af.get_elements().unwrap()).all(|(x, y)| x.to_bits() == y.to_bits());
+                if !same_f { return format!("TYPE-DIVERGENCE f64 clone_from gives {:?}", bf); }
+                let via_iter: Vec<i64> = (&b).into_iter().copied().collect();
+                if via_iter != a.get_elements().unwrap() { return "ok iteration of the clone differs".to_string(); }
+                format!("ok {}", show_arr(&b))
+            }), expected))
+        }
         "zip" => {
             let (a, b) = (parse_arr_i64(args[0]), parse_arr_i64(args[1]));
             let n = a.len().unwrap();
@@ -501,8 +744,48 @@ fn exec(op: &str, args: &[&str], expected: &str) -> Option<Verdict> {
         // ldexp pairs the mantissas with the exponents through `zip`, i.e. through the broadcasting layer, which refuses zero-length
         // axes by design: the same open region as `zip` / rint / round / log on arrays without elements (C03's question)
         "ldexp" | "roundtrip" => { let n = parse_bits_arr(args.get(1)?)?.1.len(); open_if_empty(exec_float(op, args, expected), n) }
+        // last line of the stream: how often the native reference transcript was validated against the model in this run
+        "audit" => {
+            let (v, h) = (ORACLE_VALIDATIONS.load(std::sync::atomic::Ordering::Relaxed), NATIVE_ONLY.load(std::sync::atomic::Ordering::Relaxed));
+            let text = format!("ok audit: native closure transcript validated against the model on {v} cases of this run; {h} huge cases judged by it alone");
+            if expected != "ok audit" { return Some(compare_default(text, expected)); }
+            if h > 0 && v < 1000 { Some(Verdict::Mismatch { observed: text, detail: "the native reference was used without having been validated against the model on at least 1000 smaller cases".into() }) } else { Some(Verdict::Match(text)) }
+        }
         _ => None,
     }
+}
+
+fn verdict_key(v: &Option<Verdict>) -> String {
+    match v { None => "harness-error".into(), Some(Verdict::Match(o)) => format!("match {o}"), Some(Verdict::Open(o)) => format!("open {o}"), Some(Verdict::Mismatch { observed, .. }) => format!("mismatch {observed}") }
+}
+
+thread_local! {
+    /// A-B-A across case lines: the previous case (op, args, model answer) and the verdict it got
+    static PREV: std::cell::RefCell<Option<(String, Vec<String>, String, String)>> = const { std::cell::RefCell::new(None) };
+    static LINE_NO: std::cell::Cell<usize> = const { std::cell::Cell::new(0) };
+}
+
+/// every case is judged on its own (`exec_inner`); for a third of the lines the PREVIOUS case is then executed again, on the same
+/// thread, and must get the verdict it got before this (different) case ran: A - B - A
+fn exec(op: &str, args: &[&str], expected: &str) -> Option<Verdict> {
+    let v = exec_inner(op, args, expected);
+    if let Some(Verdict::Mismatch { .. }) | None = v { PREV.with(|p| *p.borrow_mut() = None); return v; }
+    let no = LINE_NO.with(|c| { c.set(c.get() + 1); c.get() });
+    let prev = PREV.with(|p| p.borrow_mut().take());
+    // cases that may not return (frexp of an infinity) and the bookkeeping line are never re-run; long cases neither
+    let cheap = !matches!(op, "frexp" | "roundtrip" | "audit" | "hclo") && args.iter().map(|a| a.len()).sum::<usize>() + expected.len() < 20_000;
+    if cheap && no % 3 != 0 { PREV.with(|p| *p.borrow_mut() = Some((op.to_string(), args.iter().map(|a| a.to_string()).collect(), expected.to_string(), verdict_key(&v)))); }
+    if let Some((pop, pargs, pexp, pkey)) = prev {
+        if no % 3 == 0 {
+            let pa: Vec<&str> = pargs.iter().map(String::as_str).collect();
+            let again = verdict_key(&exec_inner(&pop, &pa, &pexp));
+            if again != pkey {
+                return Some(Verdict::Mismatch { observed: format!("STATE-DIVERGENCE re-run of the previous case: {}", truncate(&again, 600)),
+                    detail: format!("A-B-A: the previous case `{} {}` was executed again after this case on the same thread and no longer gets its first verdict `{}` (this case itself: {})", pop, truncate(&pargs.join(" "), 300), truncate(&pkey, 600), truncate(&verdict_key(&v), 200)) });
+            }
+        }
+    }
+    v
 }
 
 // ------------------------------------------------------------------ gen
@@ -758,6 +1041,93 @@ fn gen(tier: &str, seed: u64, out: &mut dyn FnMut(String)) {
         out(format!("ldexp f64 {}:- {}:-", show_list(z), show_list(z)));
     }
 
+    // ================= robustness streams, part 2 (FRAMEWORK.md: hidden state, huge sizes, exact lengths, re-entrancy, long lists)
+    let fold_or = |op: &str, a: &str, c: &str, init: i64| if op == "fold" { format!("fold {a} {c} {init}") } else { format!("{op} {a} {c}") };
+    // ---- (9) RE-ENTRANT closures: every closure op as the OUTER operation x every closure op as the INNER operation that the
+    //      closure itself runs, on another array and on the receiver itself
+    let re_shapes: Vec<Vec<usize>> = if thorough { vec![vec![1], vec![4], vec![2, 3], vec![2, 2, 3], vec![3, 1, 2], vec![12], vec![17], vec![0], vec![2, 0], vec![64], vec![9, 9], vec![2, 3, 4, 5, 2], vec![300]] }
+        else { vec![vec![1], vec![4], vec![2, 3], vec![2, 2, 3], vec![12], vec![17], vec![0], vec![9, 9]] };
+    for (si, s) in re_shapes.iter().enumerate() {
+        let n: usize = s.iter().product();
+        let reps: Vec<i64> = (0..n).map(|_| det.range(0, 9)).collect();
+        let arrs = [tag(s), format!("{}:{}", show_list(s), show_list(&reps))];
+        for (oi, outer) in cl_ops.iter().enumerate() { for (ii, inner) in cl_ops.iter().enumerate() {
+            for target in ["other", "self"] {
+                if target == "self" && n > 100 && !thorough { continue; }
+                let a = &arrs[(si + oi + ii) % 2];
+                let c = big_clos[(si + oi + ii) % 3];
+                out(format!("re {inner} {target} {}", fold_or(outer, a, c, det.range(0, 50))));
+            }
+        } }
+    }
+    // ---- (9) FromIterator from iterators with an inexact size hint; clone_from over an array of another shape / size
+    for n in [0usize, 1, 2, 5, 17, 64, 300, 1030] { for mode in 0..6 {
+        let l: Vec<i64> = (0..n).map(|_| det.range(-9, 99)).collect();
+        out(format!("collect_h {} {mode}", show_list(&l)));
+    } }
+    let cf: Vec<(Vec<usize>, Vec<usize>)> = vec![(vec![2, 3], vec![3, 2]), (vec![4], vec![2, 2]), (vec![0], vec![2, 3]), (vec![2, 3], vec![0]), (vec![17, 16], vec![1]), (vec![1], vec![17, 16]),
+        (vec![2, 0], vec![0, 2]), (vec![2, 3], vec![2, 3]), (vec![3, 1, 2], vec![6]), (vec![1030], vec![4100]), (vec![4100], vec![2, 2, 2]), (vec![2, 2, 2, 2, 2], vec![1, 1])];
+    for (a, b) in &cf { out(format!("clone_from {} {}", tag_off(a, 1), tag_off(b, 500))); }
+    // ---- (6) hidden state: `near` value class (flat-adjacent values one ulp / 1e-13 / 1e-15 apart, each followed by the base value)
+    //      for EVERY one-operand op on every element type; every unary case with <= 600 elements also runs A-B-A (run_unary)
+    for (si, s) in rshapes.iter().enumerate() { for (oi, op) in all_ops.iter().enumerate() { for (ti, ty) in ALL_TYPES.iter().enumerate() {
+        if !op_defined(op, ty) { continue; }
+        let float = *ty == "f64" || *ty == "f32";
+        if !thorough && !float && (si + oi + ti) % 3 != 0 { continue; }
+        out(format!("unary {op} {ty} {} near {}", show_list(s), (si * 5 + oi * 3 + ti) % 64));
+    } } }
+    for (si, s) in bigs.iter().enumerate() { for (oi, op) in all_ops.iter().enumerate() {
+        let ty = if (si + oi) % 2 == 0 { "f64" } else { "f32" };
+        if !op_defined(op, ty) || (!thorough && (si + oi) % 4 != 0) { continue; }
+        out(format!("unary {op} {ty} {} near {}", show_list(s), (si + oi * 3) % 64));
+    } }
+    // ---- (6) hidden state: shapes that collide under the weak polynomial hashes, back to back, A B A and B A B
+    for (pi, (sa, sb)) in collision_shape_pairs().iter().enumerate() {
+        if !thorough && pi % 3 != 0 { continue; }
+        let op = cl_ops[pi % cl_ops.len()];
+        let c = big_clos[pi % 3];
+        let (a, b) = (tag_off(sa, 3), tag_off(sb, 3));
+        let init = det.range(0, 50);
+        let order: [&String; 3] = if pi % 2 == 0 { [&a, &b, &a] } else { [&b, &a, &b] };
+        for x in order { out(fold_or(op, x, c, init)); }
+        let uop = all_ops[pi % all_ops.len()];
+        let ty = ALL_TYPES.iter().filter(|t| op_defined(uop, t)).nth(pi % 4).copied().unwrap_or("f64");
+        for x in if pi % 2 == 0 { [sa, sb, sa] } else { [sb, sa, sb] } { out(format!("unary {uop} {ty} {} near {}", show_list(x), pi % 64)); }
+    }
+    // ---- (8) exact lengths: every axis length 1..300 in a non-leading position, enumerating variants (the passed flat position)
+    for l in 1..=300usize {
+        let s = if l % 2 == 0 { vec![2, l] } else { vec![3, l, 1] };
+        let op = ["map_e", "filter_e", "filter_map_e", "for_each_e"][l % 4];
+        if thorough || l % 2 == 1 || l > 250 || [32, 48, 50, 64, 100, 128, 200].contains(&l) { out(format!("{op} {} {}", tag_off(&s, 1), big_clos[l % 3])); }
+    }
+    // ---- (7) huge shapes (16 384 .. 140 000 elements, an axis above 65 536).  One-operand ops: the model's answer is linear.
+    //      Closures: the list-backed model driver is quadratic (49 s for 90 000 elements), so `hclo` cases are judged by the
+    //      harness-native reference transcript, which is validated against the model on EVERY other closure case of the run
+    //      (`audit` line); two (thorough: all nine) ops go through the model itself at 16 385 / 16 900 elements.
+    let huge = huge_shapes();
+    for (si, s) in huge.iter().enumerate() {
+        let per = if thorough { 12 } else { 4 };
+        for q in 0..per {
+            let op = all_ops[(si * per + q * 5 + 1) % all_ops.len()];
+            let tys: Vec<&str> = ALL_TYPES.iter().filter(|t| op_defined(op, t)).copied().collect();
+            let ty = tys[(si + q) % tys.len()];
+            let cls = if ty.starts_with('f') { ["near", "dom", "lim", "mix", "edge"][(si + q) % 5] } else { ["near", "dom", "lim"][(si + q) % 3] };
+            out(format!("unary {op} {ty} {} {cls} {}", show_list(s), (si + q) % 60));
+        }
+        let a = tag_off(s, 1);
+        for (oi, op) in cl_ops.iter().enumerate() {
+            if !thorough && (si + oi) % 3 != 0 { continue; }
+            out(format!("hclo {}", fold_or(op, &a, big_clos[(si + oi) % 3], 7)));
+        }
+        if thorough || si % 4 == 0 { out(format!("hclo into_iter {a}")); out(format!("hclo into_iter_ref {a}")); }
+    }
+    for (oi, op) in cl_ops.iter().enumerate() {
+        if !thorough && oi != 1 && oi != 3 { continue; }
+        let hs: &[usize] = if oi % 2 == 0 { &[130, 130] } else { &[16385] };
+        out(fold_or(op, &tag_off(hs, 1), big_clos[oi % 3], 11));
+    }
+    out("audit".to_string());
+
     // ---- corpus: frexp(±inf) — never returns on the pinned tree (watchdog -> `hang`)
     out(format!("frexp f64 1:{}", bits_of(f64::INFINITY)));
     out(format!("frexp f64 1:{}", bits_of(f64::NEG_INFINITY)));
@@ -772,7 +1142,10 @@ fn nontrivial(op: &str, args: &[&str]) -> bool {
     match op {
         "unary" => parse_usize_list(args[2]).iter().product::<usize>() >= 2,
         "frexp" | "ldexp" | "roundtrip" => parse_bits_arr(args[1]).map_or(false, |(_, b)| b.iter().any(|x| { let v = f64::from_bits(*x); v.is_finite() && v != 0.0 })),
-        "collect" => parse_i64_list(args[0]).len() >= 2,
+        "collect" | "collect_h" => parse_i64_list(args[0]).len() >= 2,
+        "audit" => false,
+        "re" => parse_arr_raw(args[3]).1.len() >= 2,
+        "hclo" => true,
         _ => parse_arr_raw(args[0]).1.len() >= 2,
     }
 }
@@ -783,5 +1156,6 @@ fn main() {
 unary math: 43 ops x {f64,f32,i32} x shapes (rank<=4 len<=2 + selected, quick; all rank<=4 len<=3, thorough) x value classes dom/edge/spec(NaN,+-inf)/mix, out[p] == native kernel of in[src[p]] bit-exact; \
 frexp/ldexp/ldexp(frexp): bit patterns of all powers of two 2^-1074..2^1023 (every 37th in quick) with both neighbours and signs, extremes, subnormals, random patterns, f32-representable values, +-0, NaN, +-inf under a 5 s watchdog. \
 ROBUSTNESS STREAMS: closures on every big_shapes() entry (axis lengths 7..17, > 256 / 1024 / 4096 elements) and zero_shapes() entry x the 9 closure ops x 1-3 stamping closures whose answer depends on the passed index, on the number of earlier calls and on the element, + random long shapes; every closure / into_iter case also on the f64 (tag 0 = -0.0, bit-wise), u8 and String images of the array (same transcript required); unary: 48 ops (the 43 + reciprocal, negative, positive, bitwise_not, invert) x i8,i16,i32,i64,u8,u16,u32,u64,f32,f64 (where defined) x classes dom/lim (limits of the type, beyond 2^53 / 2^63, subnormals, -0.0), native kernel with the harness own casts, on small, big and zero-length shapes; EVERY unary / frexp / ldexp / roundtrip case on three receivers - a.op(), Ok(a).op() (bit-identical) and Err(_).op() (must stay an error); frexp/ldexp/roundtrip on arrays of 81..1030 (thorough 4100) elements, all subnormal exponents, the top binade, zero-length shapes. \
+PART 2: RE-ENTRANT closures (`re`): each of the 9 closure ops as outer operation x each of the 9 as the inner operation its closure runs on another array / on the receiver itself (inner answers checked against Vec arithmetic, outer transcript against the model); collect from iterators with inexact size hints (6 kinds, lengths 0..1030), clone_from over arrays of other shapes; value class `near` (flat-adjacent values 1 ulp / 1e-13 / 1e-15 relative / 1e-13 absolute apart, each followed by the base value; integers v, v+1, v, v-1) for every one-operand op x every element type, i0 against a harness-native Cephes kernel; A-B-A: every unary case <= 600 elements re-runs after the same op on a second array (also judged), every closure case re-runs on i64 after the f64/u8/String runs, frexp/ldexp re-run after the other receivers, and for a third of all lines the PREVIOUS line is executed again and must get the same verdict; shapes colliding under weak polynomial hashes (multipliers 31,33,37,131,257) back to back A B A / B A B through closures and unary ops; every axis length 1..300 (enumerating closures); huge_shapes() (16 384..140 000 elements): unary ops through the model, closures (`hclo`) against the harness-native reference transcript, which is validated against the model on every other closure case of the run (`audit` line demands >= 1000 validations). \
 distinct = distinct case lines; non-trivial = array with >= 2 elements (closure/unary) or containing a finite non-zero value (float ops)" });
 }
